@@ -730,6 +730,140 @@ theorem _root_.KafVerif.C38.checked_login_is_attempt (s : State) (ip : Nat) (pos
           · exact hm
           · simp only [List.mem_append, List.mem_singleton]; left; exact hm
 
+/-! ### (2b) r3: the limiter's bookkeeping for one address does not depend on the other addresses
+
+The code writes `l.hits[key]` only, never deletes from `l.hits`, and decides from `l.hits[key]`,
+`limit`, `window` and the clock alone.  A table-size dependent prune (seeded change C38-r3-1) breaks
+exactly these three statements. -/
+
+/-- `Allow(k)` leaves the recorded history of every other address `k'` untouched -/
+theorem _root_.KafVerif.C38.limiter_addr_independent (s : State) (k k' : Nat) (h : k' ≠ k) :
+    hitsOf (allow s k).1.hits k' = hitsOf s.hits k' := by
+  unfold allow
+  split
+  · rfl
+  · split <;> simp [hitsOf_insert, h]
+
+/-- the decision of `Allow(ip)` and the history it leaves for `ip` are a function of the configuration,
+the clock and `ip`'s own recorded history — whatever else the table holds (any number of addresses) -/
+theorem _root_.KafVerif.C38.limiter_decision_local (s1 s2 : State) (ip : Nat) (hc : s1.cfg = s2.cfg)
+    (hn : s1.now = s2.now) (hh : hitsOf s1.hits ip = hitsOf s2.hits ip) :
+    (allow s1 ip).2 = (allow s2 ip).2 ∧ hitsOf (allow s1 ip).1.hits ip = hitsOf (allow s2 ip).1.hits ip := by
+  have hp : pruned s1 ip = pruned s2 ip := by simp only [pruned, hc, hn, hh]
+  unfold allow
+  rw [hc, hp, hn]
+  split
+  · exact ⟨rfl, hh⟩
+  · split <;> simp [hitsOf_insert]
+
+def isLoginOf (ip : Nat) : Op → Bool
+  | .login i _ _ _ _ => i == ip
+  | _ => false
+
+theorem validate_hits (s : State) (c : Option Nat) : (validate s c).1.hits = s.hits := by
+  unfold validate
+  split
+  · rfl
+  · split
+    · rfl
+    · split <;> rfl
+
+theorem step_hits_other (s : State) (op : Op) (ip : Nat) (h : isLoginOf ip op = false) :
+    hitsOf (step s op).hits ip = hitsOf s.hits ip := by
+  cases op with
+  | tick d => rfl
+  | login i post pl u p =>
+    have hne : ip ≠ i := by
+      intro e; subst e; simp [isLoginOf] at h
+    simp only [step]; unfold login
+    split
+    · rfl
+    · split
+      · rfl
+      · have h1 := KafVerif.C38.limiter_addr_independent s i ip hne
+        generalize allow s i = r at h1
+        obtain ⟨s1, a⟩ := r
+        simp only at h1 ⊢
+        split
+        · exact h1
+        · split
+          · exact h1
+          · split <;> exact h1
+  | logout post c =>
+    simp only [step]; unfold logout
+    split
+    · rfl
+    · split <;> rfl
+  | request c =>
+    simp only [step]; unfold guard
+    split
+    · rfl
+    · have := validate_hits s c
+      generalize validate s c = r at this
+      obtain ⟨s1, v⟩ := r
+      simp only at this ⊢
+      split <;> simp [this]
+  | session c =>
+    simp only [step]; unfold sessionInfo
+    split
+    · rfl
+    · rw [validate_hits]
+
+/-- **C38 (limiter, state independence).** Whatever happens in between — any number of login attempts
+of any number of OTHER addresses, logouts, requests, time passing — the history the limiter keeps for
+`ip` is unchanged: an address cannot have its budget reset by traffic it did not send. -/
+theorem _root_.KafVerif.C38.limiter_run_local (s : State) (ops : List Op) (ip : Nat)
+    (h : ∀ op ∈ ops, isLoginOf ip op = false) :
+    hitsOf (ops.foldl step s).hits ip = hitsOf s.hits ip := by
+  induction ops generalizing s with
+  | nil => rfl
+  | cons op ops ih =>
+    simp only [List.foldl_cons]
+    rw [ih (step s op) (fun o ho => h o (List.mem_cons_of_mem _ ho))]
+    exact step_hits_other s op ip (h op List.mem_cons_self)
+
+/-! ### (1c) r3: the stored expiry is the login instant plus ttl, exactly -/
+
+/-- a successful login stores, for the token it hands out, the expiry `now + ttl` — not rounded, not
+extended (seeded change C38-r3-2 rounds it to the wall-clock second grid) -/
+theorem _root_.KafVerif.C38.stored_expiry_exact (s : State) (ip : Nat) (post pl : Bool) (u p : Cred) (tok : Nat)
+    (h : (login s ip post pl u p).2 = .ok tok) :
+    lookup (login s ip post pl u p).1.sessions tok = some (s.now + s.cfg.ttl) := by
+  unfold login at h ⊢
+  split
+  · rename_i hp; simp [hp] at h
+  · rename_i hp
+    split
+    · rename_i he; simp [hp, he] at h
+    · rename_i he
+      simp only [hp, he, Bool.false_eq_true, if_false] at h
+      have hn := allow_now s ip
+      have hc := allow_cfg s ip
+      generalize allow s ip = r at h hn hc
+      obtain ⟨s1, a⟩ := r
+      simp only at h hn hc ⊢
+      split
+      · rename_i h1; simp [h1] at h
+      · rename_i h1
+        split
+        · rename_i h2; simp [h1, h2] at h
+        · rename_i h2
+          split
+          · rename_i h3; simp [h1, h2, h3] at h
+          · rename_i h3
+            simp only [h1, h2, h3, Bool.false_eq_true, if_false, LoginOut.ok.injEq] at h
+            subst h
+            simp only [lookup_insert, if_true, hn, hc]
+
+/-- after any history, every stored session carries the expiry `t + ttl` of the login (at `t`) that
+issued it (the `exp = t + ttl` conjunct of `SessInv`, for `run`) -/
+theorem _root_.KafVerif.C38.stored_expiry_exact_run (cfg : Config) (ops : List Op) (tok exp : Nat)
+    (h : lookup (run cfg ops).sessions tok = some exp) :
+    ∃ t, Event.issued tok t ∈ (run cfg ops).hist ∧ t ≤ (run cfg ops).now ∧ exp = t + cfg.ttl := by
+  obtain ⟨h1, h2, t, e, _, ht, he⟩ := sessInv_run cfg ops tok exp h
+  rw [run_cfg] at he
+  exact ⟨t, by rw [e]; simp, ht, he⟩
+
 /-! ### (3) the route table of `NewMux` (regenerated from the source on every run) -/
 
 open KafVerif.Gen.C38 in
@@ -807,6 +941,12 @@ example : (login (run ⟨true, 100, 2, 60⟩ [.login 1 true true .ok .bad, .tick
     = .ok 0 := by decide
 example : windowCount (run ⟨true, 100, 2, 60⟩ [.login 1 true true .ok .bad, .tick 59, .login 1 true false .ok .ok]).hist 1 60 59 = 2 := by decide
 example : limiterOff ⟨true, 43200, 20, 60⟩ = false := by decide
+/-- r3 non-vacuity: the probing address keeps its history across attempts of other addresses (and is
+still refused), and a login's stored expiry is exactly now + ttl -/
+example : (login (run ⟨true, 100, 2, 60⟩ [.login 1 true true .ok .bad, .tick 30, .login 1 true true .ok .bad, .tick 30,
+    .login 7 true true .ok .bad, .login 8 true true .ok .bad, .login 1 true true .ok .bad]) 1 true true .ok .ok).2 = .limited := by decide
+example : hitsOf (run ⟨true, 100, 2, 60⟩ [.login 1 true true .ok .bad, .login 7 true true .ok .bad, .login 8 true true .ok .bad]).hits 1 = [0] := by decide
+example : lookup (login (run ⟨true, 100, 2, 60⟩ [.tick 7]) 1 true true .ok .ok).1.sessions 0 = some 107 := by decide
 open KafVerif.Gen.C38 in
 example : dispatch routes "/ui/api/status/topics/orders".toList = .route ⟨"/ui/api/status/topics/".toList, true, false⟩ := by decide
 
